@@ -212,6 +212,18 @@ static ssize_t do_write(int fd, const void *buf, size_t n, int positional, off_t
 ssize_t write(int fd, const void *buf, size_t n) { return do_write(fd, buf, n, 0, 0); }
 ssize_t pwrite(int fd, const void *buf, size_t n, off_t off) { return do_write(fd, buf, n, 1, off); }
 ssize_t pwrite64(int fd, const void *buf, size_t n, off_t off) { return do_write(fd, buf, n, 1, off); }
+/* reads are not logged; in short mode a read of a watched file may return less than asked (legal) */
+static uint64_t short_reads_done;
+ssize_t read(int fd, void *buf, size_t n) {
+    REAL(ssize_t, read, int, void *, size_t);
+    char *p = fdpath(fd);
+    if (!p || !enabled || !s_ppm || n < 2) return real_read(fd, buf, n);
+    size_t m = n;
+    pthread_mutex_lock(&mu);
+    if (srnd() % 1000000 < s_ppm) { m = 1 + (size_t)(srnd() % (n - 1)); short_reads_done++; }
+    pthread_mutex_unlock(&mu);
+    return real_read(fd, buf, m);
+}
 static ssize_t do_writev(int fd, const struct iovec *iov, int cnt, int positional, off_t off) {
     REAL(ssize_t, writev, int, const struct iovec *, int);
     REAL(ssize_t, pwritev, int, const struct iovec *, int, off_t);
@@ -482,4 +494,5 @@ void iorec_seed(uint64_t s) { pthread_mutex_lock(&mu); dseed = s ? s : 881726454
 uint64_t iorec_delays_done(void) { return delays_done; }
 void iorec_short(uint32_t ppm, uint64_t seed) { pthread_mutex_lock(&mu); s_ppm = ppm; if (seed) s_seed = seed; pthread_mutex_unlock(&mu); }
 uint64_t iorec_shorts_done(void) { return shorts_done; }
+uint64_t iorec_short_reads_done(void) { return short_reads_done; }
 int iorec_present(void) { return 1; }
